@@ -79,7 +79,9 @@ def replay_values(scratch, spec, values, tries=1):
         env = E.cargo_env("--cfg verif_replay")
         env["VERIF_VALUES"] = vp
         env["RUST_BACKTRACE"] = "0"
-        env["CARGO_TARGET_DIR"] = os.path.join(scratch, "replay_target")
+        # dependency builds are shared between runs (a cold native build of the crate's dependencies, zstd's C code
+        # included, takes minutes); the overlaid crate itself is rebuilt from the scratch copy every time
+        env["CARGO_TARGET_DIR"] = os.environ.get("VERIF_REPLAY_TARGET", os.path.join(E.VERIF, ".cache", "replay_target"))
         verdict, detail = "clean", ""
         for _ in range(tries):
             p = subprocess.run(["cargo", "test", "--offline", "--lib"] + flag + ["--", "--exact", "--test-threads", "1", "--nocapture", _test_path(spec)],
@@ -100,6 +102,8 @@ def replay_values(scratch, spec, values, tries=1):
                 verdict = "reproduced"
                 break
         out[profile] = (verdict, detail)
+        if verdict == "reproduced":
+            break   # one reproducing profile decides; the release build is only tried when dev did not reproduce
     return out
 
 
